@@ -321,7 +321,7 @@ def e1_run(tier):
         # (4) TLC evaluates the property predicates on real observations: all mismatching steps + a sample of matching ones
         from concurrent.futures import ThreadPoolExecutor
         trs = ("mismatch.ndjson", "witness.ndjson", "sample.ndjson")
-        with ThreadPoolExecutor(max_workers=3) as ex:
+        with ThreadPoolExecutor(max_workers=jobs(3, 7)) as ex:
             vs = list(ex.map(lambda tr: validate_trace(spec, os.path.join(sdir, tr), name + "/" + tr), trs))
         for v in vs:
             result["validated_steps"] += v["steps"]
@@ -350,7 +350,7 @@ def e1_run(tier):
             r = sh([VH, "drive", "--out", tr, "--seed", str(seed() * 1000 + ci), "--n", str(per), "--len", str(length), "--ser-every", "3"], timeout=3600)
             return json.loads(r.stdout.strip().splitlines()[-1]), validate_trace(spec, tr, "driver/drv%d" % ci)
         from concurrent.futures import ThreadPoolExecutor
-        with ThreadPoolExecutor(max_workers=8) as ex:
+        with ThreadPoolExecutor(max_workers=jobs(8, 7)) as ex:
             outs = list(ex.map(one, range(nchunks)))
         dops = {}
         for ds, v in outs:
@@ -372,6 +372,15 @@ def e1_run(tier):
     return result
 
 
+def jobs(n, gb):
+    """how many JVMs of about `gb` GB may run side by side: never more than the memory that is free right now allows"""
+    try:
+        avail = [int(l.split()[1]) for l in open("/proc/meminfo") if l.startswith("MemAvailable")][0] / 1048576.0
+    except Exception:
+        avail = 16.0
+    return max(1, min(n, int((avail - 4) // gb)))
+
+
 def validate_trace(spec, trace, label, nm=2):
     """TLC evaluates every property predicate on every step of a recorded trace; returns the verdict lines"""
     out = {"steps": 0, "verdicts": [], "drift": 0, "unmodelled": 0, "tool_errors": []}
@@ -380,7 +389,7 @@ def validate_trace(spec, trace, label, nm=2):
     lines = open(trace).read().splitlines()
     out["steps"] = len(lines)
     cfg = "trace.cfg"
-    t = run_tlc(spec, "ArxmlTrace.tla", cfg, 1, 3600, env={"TRACE": trace, "JAVA_TOOL_OPTIONS": "-Xss1g -Dtlc2.tool.queue.IStateQueue=StateDeque"}, heap="12g",
+    t = run_tlc(spec, "ArxmlTrace.tla", cfg, 1, 3600, env={"TRACE": trace, "JAVA_TOOL_OPTIONS": "-Xss1g -Dtlc2.tool.queue.IStateQueue=StateDeque"}, heap="8g",
                 tag="_" + label.replace("/", "_").replace(".", "_"))
     consumed = not any(l.startswith('<<"NOTCONSUMED"') for l in t["tagged"]) and t["rc"] == 0
     if not consumed:
@@ -560,7 +569,7 @@ def e4_run(tier):
     shutil.copytree(os.path.join(ROOT, "spec", "doc"), run)
     res = {"tier": tier, "modes": {}, "verdicts": [], "tool_errors": [], "inputs": 0, "states": 0, "samples": []}
     maxlen = 3 if tier == "quick" else 4
-    for mode in ("docs", "defects", "strings", "deep"):
+    for mode in ("docs", "defects", "strings", "markup", "deep"):
         cfg = "gen_%s.cfg" % mode
         open(os.path.join(run, cfg), "w").write("SPECIFICATION Spec\nCHECK_DEADLOCK FALSE\nCONSTANTS\n  Mode = \"%s\"\n  MaxLen = %d\n" % (mode, maxlen))
         inp = os.path.join(run, "in_%s.ndjson" % mode)
@@ -1308,19 +1317,58 @@ def check_c09(tier):
     shutil.rmtree(run, ignore_errors=True)
     shutil.copytree(os.path.join(ROOT, "spec", "merge"), run)
     tool_errors = []
-    nfiles = 2 if tier == "quick" else 3
-    for mode in ("gen", "judge"):
-        open(os.path.join(run, "merge_%s.cfg" % mode), "w").write("SPECIFICATION Spec\nCHECK_DEADLOCK FALSE\nCONSTANTS\n  Mode = \"%s\"\n  NFiles = %d\n  Reorder = TRUE\n" % (mode, nfiles))
+    # families: two files with every split and sibling order; three files (an element that already has its own file set is merged again)
+    fams = [(2, "TRUE", "FALSE"), (3, "FALSE", "TRUE")] if tier == "quick" else [(2, "TRUE", "FALSE"), (3, "TRUE", "TRUE"), (3, "FALSE", "FALSE")]
+    nfiles = 3
+    def wcfg(mode, fam):
+        name = "merge_%s.cfg" % mode
+        open(os.path.join(run, name), "w").write("SPECIFICATION Spec\nCHECK_DEADLOCK FALSE\nCONSTANTS\n  Mode = \"%s\"\n  NFiles = %d\n  Reorder = %s\n  Small = %s\n" % ((mode,) + fam))
+        return name
+    wcfg("judge", fams[0])
     inp = os.path.join(run, "in.ndjson")
-    g = tlc_lines(run, "Merge.tla", "merge_gen.cfg", "I", inp, workers=8)
-    if g["rc"] != 0 or g["n"] == 0:
-        tool_errors.append("Merge gen rc=%s n=%s %s" % (g["rc"], g["n"], g["errors"][:2]))
-    out = os.path.join(run, "res.ndjson")
-    sh([VH, "merge", "--in", inp, "--out", out], timeout=3600)
-    j = run_tlc(run, "Merge.tla", "merge_judge.cfg", 1, 3600, env={"RESULTS": out}, tag="_judge", heap="12g")
-    if j["rc"] != 0:
-        tool_errors.append("Merge judge rc=%s %s" % (j["rc"], j["errors"][:2]))
-    verdicts = [json.loads(decode_tagged(l)[1][0]) for l in j["tagged"] if l.startswith('<<"V"')]
+    g = {"distinct": 0, "generated": 0, "n": 0}
+    with open(inp, "w") as fo:
+        for k, fam in enumerate(fams):
+            part = os.path.join(run, "in_fam%d.ndjson" % k)
+            gg = tlc_lines(run, "Merge.tla", wcfg("gen", fam), "I", part, workers=8)
+            if gg["rc"] != 0 or gg["n"] == 0:
+                tool_errors.append("Merge gen %s rc=%s n=%s %s" % (fam, gg["rc"], gg["n"], gg["errors"][:2]))
+            for kk in ("distinct", "generated", "n"):
+                g[kk] += gg[kk]
+            for l in open(part):
+                d = json.loads(l)
+                d["id"]["fam"] = k
+                fo.write(json.dumps(d) + "\n")
+            os.remove(part)
+    # the judge reads its whole input: the cases go through the library and the judge in chunks (all load orders of a split stay together)
+    CH = 6000
+    chunks = []
+    with open(inp) as f:
+        buf = []
+        for l in f:
+            buf.append(l)
+            if len(buf) == CH:
+                chunks.append(buf); buf = []
+        if buf:
+            chunks.append(buf)
+    nrec_total = [0]
+    def one(k):
+        cin = os.path.join(run, "in_%d.ndjson" % k)
+        cout = os.path.join(run, "res_%d.ndjson" % k)
+        open(cin, "w").writelines(chunks[k])
+        sh([VH, "merge", "--in", cin, "--out", cout], timeout=3600)
+        nrec_total[0] += sum(1 for _ in open(cout))
+        jj = run_tlc(run, "Merge.tla", "merge_judge.cfg", 1, 3600, env={"RESULTS": cout}, tag="_judge%d" % k, heap="6g")
+        os.remove(cout); os.remove(cin)
+        return jj
+    from concurrent.futures import ThreadPoolExecutor
+    with ThreadPoolExecutor(max_workers=jobs(8, 7)) as ex:
+        js = list(ex.map(one, range(len(chunks))))
+    verdicts = []
+    for k, j in enumerate(js):
+        if j["rc"] != 0:
+            tool_errors.append("Merge judge chunk %d rc=%s %s" % (k, j["rc"], j["errors"][:2]))
+        verdicts += [json.loads(decode_tagged(l)[1][0]) for l in j["tagged"] if l.startswith('<<"V"')]
     kf = [f for f in known_findings().get("findings", []) if f.get("engine") == "E5"]
     viol = 0
     known = {}
@@ -1344,7 +1392,7 @@ def check_c09(tier):
             log("   %s fails: split %s, load order %s, loads %s, duplicates %s" % (v["pred"], v["id"], v["order"], v["loads"], v["dup"]))
     for fid, f in known.items():
         print("KNOWN-FINDING: property=C09 %s" % f["what"])
-    nrec = sum(1 for _ in open(out))
+    nrec = nrec_total[0]
     samples = []
     with open(inp) as f:
         for i, l in enumerate(f):
@@ -1353,8 +1401,8 @@ def check_c09(tier):
                 samples.append({"split": c["id"], "view_of_file_1": c["views"][0][-260:]})
     ev = {"property_id": "C09", "tier": tier, "seed": seed(), "level": "model_checking",
           "coverage": {"states": max(1, g["distinct"]), "transitions": max(1, g["generated"]), "traces_validated_against_impl": nrec, "samples": samples or ["none"],
-                       "files": nfiles, "splits_x_sibling_orders": g["n"], "known_findings_hit": sorted(known.keys()), "exhaustive": True,
-                       "explanation": "TLC enumerates every split of the master model (2 packages, 4 elements, a nested package) over the files, with each file presenting its siblings in document or reversed order; the harness loads the views in every order; TLC judges Union, Attribution, FileContent and OrderIndependent on every merged model"},
+                       "files": nfiles, "splits_x_sibling_orders": g["n"], "families_files_reorder_small": [list(f) for f in fams], "known_findings_hit": sorted(known.keys()), "exhaustive": True,
+                       "explanation": "TLC enumerates every split of the master model (2 packages, 4 elements, a nested package) over two and three files, with each file presenting its siblings in document or reversed order; the harness loads the views in every order; TLC judges Union, Attribution, FileContent and OrderIndependent on every merged model"},
           "assumptions": ["one master shape (spec/merge/Merge.tla); BSW containers keyed by DEFINITION-REF and files of different versions are not in the enumerated family", "canonical element lists from harness/src/merge.rs"],
           "wall_s": round(time.time() - t0, 2), "violations": viol}
     os.makedirs(EVID, exist_ok=True)
